@@ -408,4 +408,89 @@ theorem absRun_sound (c : Bool) (fault : Fault)
       rw [remove_eq_self hr] at this
       exact this
 
+/-! ### pyatv.connect for an arbitrary list of protocols -/
+
+/-- resources of the protocols `ps` -/
+def IsProtoRes (ps : List Nat) (r : Res) : Prop := ∃ p ∈ ps, r = .conn p ∨ r = .task p
+
+theorem connectBody_abs (ps : List Nat) : ∀ a : Abs,
+    (absRun false (connectBody ps) a).safe = true ∧
+    (∀ x, (absRun false (connectBody ps) a).exc = some x →
+      ∀ r ∈ x.may, r ∈ a.may ∨ IsProtoRes ps r) := by
+  induction ps with
+  | nil => intro a; simp [connectBody, absRun]
+  | cons p ps ih =>
+    intro a
+    have h := ih { may := Res.task p :: Res.conn p :: a.may, must := a.must }
+    simp only [connectBody, absRun, joinE, Bool.true_and]
+    refine ⟨h.1, ?_⟩
+    intro x hx r hr
+    cases hrest : (absRun false (connectBody ps)
+        { may := Res.task p :: Res.conn p :: a.may, must := a.must }).exc with
+    | none =>
+      rw [hrest] at hx
+      cases hx
+      exact Or.inl hr
+    | some y =>
+      rw [hrest] at hx
+      cases hx
+      simp only [Abs.join, List.mem_append] at hr
+      rcases hr with hr | hr
+      · exact Or.inl hr
+      · rcases h.2 y hrest r hr with h' | ⟨q, hq, hq'⟩
+        · simp only [List.mem_cons] at h'
+          rcases h' with rfl | rfl | h'
+          · exact Or.inr ⟨p, List.mem_cons_self, Or.inr rfl⟩
+          · exact Or.inr ⟨p, List.mem_cons_self, Or.inl rfl⟩
+          · exact Or.inl h'
+        · exact Or.inr ⟨q, List.mem_cons_of_mem _ hq, hq'⟩
+
+theorem closeAll_abs (ps : List Nat) : ∀ x : Abs,
+    (absRun false (closeAll ps) x).exc = none ∧
+    (absRun false (closeAll ps) x).safe = true ∧
+    (∀ r ∈ (absRun false (closeAll ps) x).norm.may, r ∈ x.may ∧ ¬ IsProtoRes ps r) := by
+  induction ps with
+  | nil =>
+    intro x
+    simp only [closeAll, absRun, true_and]
+    intro r hr
+    exact ⟨hr, fun ⟨p, hp, _⟩ => by cases hp⟩
+  | cons p ps ih =>
+    intro x
+    have h := ih ((x.drop (.conn p)).drop (.task p))
+    simp only [closeAll, absRun, joinE, Bool.true_and]
+    refine ⟨h.1, h.2.1, ?_⟩
+    intro r hr
+    have hr' := h.2.2 r hr
+    simp only [Abs.drop, mem_remove] at hr'
+    refine ⟨hr'.1.1.1, ?_⟩
+    rintro ⟨q, hq, hq'⟩
+    rcases List.mem_cons.mp hq with rfl | hq
+    · rcases hq' with rfl | rfl
+      · exact hr'.1.1.2 rfl
+      · exact hr'.1.2 rfl
+    · exact hr'.2 ⟨q, hq, hq'⟩
+
+/-- pyatv.connect is bracketed for EVERY list of protocols. -/
+theorem connectScript_bracketed (ps : List Nat) : Bracketed false (connectScript ps) = true := by
+  have hA := connectBody_abs ps { may := [Res.httpSession], must := [] }
+  simp only [Bracketed, connectScript, absRun, Abs.empty, joinE, Bool.true_and]
+  cases hexc : (absRun false (connectBody ps) { may := [Res.httpSession], must := [] }).exc with
+  | none => simp [hA.1, excClean]
+  | some x =>
+    have hB := closeAll_abs ps x
+    simp only [hB.1, Bool.false_eq_true, if_false]
+    simp only [hA.1, hB.2.1, Bool.and_self, Bool.true_and, excClean, Abs.join]
+    rw [List.isEmpty_iff]
+    have hnil : (remove Res.httpSession (absRun false (closeAll ps) x).norm.may) = [] := by
+      apply List.eq_nil_iff_forall_not_mem.mpr
+      intro r hr
+      rw [mem_remove] at hr
+      have h1 := hB.2.2 r hr.1
+      rcases hA.2 x hexc r h1.1 with h' | h'
+      · simp at h'; exact hr.2 h'
+      · exact h1.2 h'
+    simp [Abs.drop, hnil]
+
+
 end PyatvModel.C18
